@@ -203,13 +203,22 @@ func (x *Exec) rawEtimes() ([]int64, error) {
 
 // noteRel records the canonical form of etimes written as now+ttl in the
 // window [t0,t1].
-func (x *Exec) noteRel(ttls []int64, t0, t1 int64) error {
+func (x *Exec) noteRel(ttls []int64, t0, t1 int64, results []Res) error {
 	if len(ttls) == 0 {
 		return nil
 	}
 	es, err := x.rawEtimes()
 	if err != nil {
 		return err
+	}
+	// etimes that were returned by a call of this step but overwritten later
+	// in the same step
+	for _, r := range results {
+		for _, m := range reE.FindAllString(r.Val, -1) {
+			if v, err := strconv.ParseInt(m[1:], 10, 64); err == nil {
+				es = append(es, v)
+			}
+		}
 	}
 	for _, e := range es {
 		if _, done := x.rel[e]; done {
@@ -404,7 +413,7 @@ func (x *Exec) RunStep(st *Step) (StepTrace, error) {
 	}
 	t1 := x.end(t0)
 	tr.T0, tr.T1 = t0, t1
-	if err := x.noteRel(ttls, t0, t1); err != nil {
+	if err := x.noteRel(ttls, t0, t1, results); err != nil {
 		return tr, err
 	}
 	if !st.Block {
